@@ -36,9 +36,27 @@ Proof. destruct a, b; simpl; intros H; try discriminate; split_andb H;
   end; subst; repeat split; try reflexivity; intros; try discriminate.
 Qed.
 
+Lemma ci_same_nontable s a b : is_table s = false -> ci_same s a b = true -> a = b.
+Proof. unfold ci_same. intros ->. simpl. apply ci_eqb_eq. Qed.
+
 Section P.
 Variable T : Type.
 Variable E : engine T.
+
+(* what a step reads from an operand *)
+Definition operand (r : env T) (s : nearsql) (ci : cinfo) : T :=
+  if by_name s ci then r (qname s) else nsem E r s (ccols ci).
+
+Lemma operand_same r s s' ci ci' :
+  same_mod_names s s' = true -> ci_same s ci ci' = true -> (forall cols, nsem E r s cols = nsem E r s' cols) ->
+  operand r s ci = operand r s' ci' /\ cpub ci = cpub ci'.
+Proof.
+  intros Hs Hc IH. destruct (same_table _ _ Hs) as (It & _ & Qn). unfold operand, by_name, ci_same in *. rewrite <- It.
+  destruct (is_table s && negb (cforce ci)) eqn:B.
+  - apply andb_true_iff in Hc. destruct Hc as [Hf Hp]. apply Bool.eqb_prop in Hf. apply oseqb_eq in Hp.
+    rewrite <- Hf, B. apply andb_true_iff in B. destruct B as [Its _]. rewrite (Qn Its). split; [reflexivity|exact Hp].
+  - apply ci_eqb_eq in Hc. subst ci'. rewrite B. split; [apply IH|reflexivity].
+Qed.
 
 Lemma same_nsem a : forall b, same_mod_names a b = true -> forall (r : env T) cols, nsem E r a cols = nsem E r b cols.
 Proof.
@@ -46,33 +64,32 @@ Proof.
   intros b H r cols; destruct b; simpl in H; try discriminate; split_andb H.
   - apply seqb_eq in H. apply terms_eqb_eq in H0. subst. reflexivity.
   - apply seqb_eq in H. subst. reflexivity.
-  - apply terms_eqb_eq in H. apply ci_eqb_eq in H2. apply lseqb_eq in H1. subst.
-    destruct (same_table _ _ H3) as (It & _ & Qn). simpl. f_equal. unfold by_name. rewrite <- It.
-    destruct (is_table s) eqn:Its; simpl; [destruct (cforce ci0); simpl; [apply IH, H3|rewrite (Qn eq_refl); reflexivity]|apply IH, H3].
-  - apply terms_eqb_eq in H. apply ci_eqb_eq in H5. apply ci_eqb_eq in H2. apply seqb_eq in H4. apply lseqb_eq in H1. subst.
-    destruct (same_table _ _ H6) as (It1 & _ & Qn1). destruct (same_table _ _ H3) as (It2 & _ & Qn2).
-    simpl. f_equal; unfold by_name.
-    + rewrite <- It1. destruct (is_table s1) eqn:Its; simpl; [destruct (cforce c0); simpl; [apply IH1, H6|rewrite (Qn1 eq_refl); reflexivity]|apply IH1, H6].
-    + rewrite <- It2. destruct (is_table s2) eqn:Its; simpl; [destruct (cforce c3); simpl; [apply IH2, H3|rewrite (Qn2 eq_refl); reflexivity]|apply IH2, H3].
+  - apply terms_eqb_eq in H. apply lseqb_eq in H1. subst.
+    destruct (operand_same r _ _ _ _ H3 H2 (fun c => IH _ H3 r c)) as [Eo _]. simpl. f_equal. exact Eo.
+  - apply terms_eqb_eq in H. apply seqb_eq in H4. apply lseqb_eq in H1. subst.
+    destruct (operand_same r _ _ _ _ H6 H5 (fun c => IH1 _ H6 r c)) as [Eo1 Ep1].
+    destruct (operand_same r _ _ _ _ H3 H2 (fun c => IH2 _ H3 r c)) as [Eo2 Ep2].
+    simpl. rewrite Ep1, Ep2. f_equal; assumption.
   - apply lseqb_eq in H. apply lseqb_eq in H2. apply Bool.eqb_prop in H1. subst. reflexivity.
-  - apply lseqb_eq in H. apply ci_eqb_eq in H3. apply lseqb_eq in H2. apply Bool.eqb_prop in H1. subst.
-    destruct (same_table _ _ H4) as (It & _ & Qn). simpl. f_equal. unfold by_name. rewrite <- It.
-    destruct (is_table s) eqn:Its; simpl; [destruct (cforce ci0); simpl; [apply IH, H4|rewrite (Qn eq_refl); reflexivity]|apply IH, H4].
+  - apply lseqb_eq in H. apply lseqb_eq in H2. apply Bool.eqb_prop in H1. subst.
+    destruct (operand_same r _ _ _ _ H4 H3 (fun c => IH _ H4 r c)) as [Eo _]. simpl. f_equal. exact Eo.
 Qed.
 End P.
 
-Lemma same_ckeys fl s s' ci : same_mod_names s s' = true -> desc_keys fl s = desc_keys fl s' -> ckeys fl s ci = ckeys fl s' ci.
-Proof. intros H D. destruct (same_table _ _ H) as (It & Ok & _). unfold ckeys, ckey. simpl. rewrite <- It, <- Ok, D. reflexivity. Qed.
+Lemma same_ckeys fl s s' ci ci' :
+  same_mod_names s s' = true -> ci_same s ci ci' = true -> desc_keys fl s = desc_keys fl s' -> ckeys fl s ci = ckeys fl s' ci'.
+Proof. intros H Hc D. destruct (same_table _ _ H) as (It & Ok & _). unfold ckeys, ckey. simpl. rewrite <- It.
+  destruct (is_table s) eqn:Its; [reflexivity|]. rewrite (ci_same_nontable s ci ci' Its Hc), <- Ok, D. reflexivity. Qed.
 
 Lemma same_desc_keys fl a : forall b, same_mod_names a b = true -> desc_keys fl a = desc_keys fl b.
 Proof.
   induction a as [n t|n k|n t s IH ci sfx an mg dp k|n t s1 IH1 c1 j s2 IH2 c2 sfx an k|n p sfx an a0 k|n p s IH ci sfx an a0 k];
   intros b H; destruct b; simpl in H; try discriminate; split_andb H; try reflexivity.
-  - apply ci_eqb_eq in H2. subst. rewrite !desc_keys_unary. apply same_ckeys; [exact H3|apply IH, H3].
-  - apply ci_eqb_eq in H5. apply ci_eqb_eq in H2. subst. rewrite !desc_keys_binary. f_equal.
-    + apply same_ckeys; [exact H6|apply IH1, H6].
-    + apply same_ckeys; [exact H3|apply IH2, H3].
-  - apply ci_eqb_eq in H3. subst. rewrite !desc_keys_raw1. apply same_ckeys; [exact H4|apply IH, H4].
+  - rewrite !desc_keys_unary. apply same_ckeys; [exact H3|exact H2|apply IH, H3].
+  - rewrite !desc_keys_binary. f_equal.
+    + apply same_ckeys; [exact H6|exact H5|apply IH1, H6].
+    + apply same_ckeys; [exact H3|exact H2|apply IH2, H3].
+  - rewrite !desc_keys_raw1. apply same_ckeys; [exact H4|exact H3|apply IH, H4].
 Qed.
 
 Lemma conts_nontable q : forall c, In c (conts q) -> is_table (fst c) = false.
